@@ -120,6 +120,12 @@ def run_queries(mod, cfg, out, stats, cosim_cycles=0, extra_observe=lambda h: []
                 "query": q.name, "cfg": cfg, "stimulus": v.stimulus, "prefix": v.prefix, "k": v.k,
                 "detail": v.detail, "history": hist, "second_elaboration": second_elaboration(mod, cfg),
             })
+            from . import bmc as _b
+            if out.violations[-1]["key"] not in _b.KNOWN_KEYS:
+                # a confirmed, unlisted violation decides the check: report it at once (the runner cancels the
+                # other configurations after a grace period and must not lose this record while the remaining
+                # queries of this configuration are still being solved on a loaded machine)
+                return
     if undecided is not None and not found:
         raise undecided
     if cosim_cycles and undecided is None:
